@@ -457,7 +457,9 @@ fn battery(ctx: &Ctx, c: &Corrupted, stats: &Stats, counting: bool, deep_faults:
 		}
 		match (&out, clean_kind[oi]) {
 			(Out::Panic(p), _) => return Err(mk(format!("op=eintr panic~{}", rt::panic_site(p)), p.clone())),
-			(Out::Ok(_), "ok") | (Out::Err(_), "err") => {}
+			// EINTR may be retried (std's convention) or surfaced as an error — both satisfy the property;
+			// what must not happen is a game where the clean run fails, or a different game (checked below)
+			(Out::Ok(_), "ok") | (Out::Err(_), _) => {}
 			(o2, k) => return Err(mk(format!("op=eintr differs skip={} hash={}", skip, hash), format!("with injected EINTR + short reads the result is {} but the clean run gave {}", o2.kind(), k))),
 		}
 		if let (Out::Ok(g), "ok") = (&out, clean_kind[oi]) {
@@ -582,7 +584,7 @@ fn cfg(ctx: &Ctx) -> GenCfg {
 }
 
 pub fn run(ctx: &Ctx) -> usize {
-	ctx.set_rule("structure-aware corruptions of generated valid replays of every regime (event insert/delete/duplicate/swap, wrong frame id, port byte 4..255 or unoccupied, follower flag on non-ICs, events illegal for the version with/without a table entry, payload-table size/zero/duplicate/drop/size-byte edits, declared raw length {0, 1, consumed+-k, actual+-k, 2^32-1, random}, splitter size/code/final/declared-size fields, metadata grammar violations, nesting depth 126..3000 in-process and up to 10^6 in a child process, no players), byte-level truncation/flips/splices/random bytes; each input read with all four {skip frames} x {hash} combinations and through the README incremental loop; fault injection: a hard I/O error at read call k (every k for small inputs) or at the seek must surface as Err, injected EINTR + short reads must leave the result unchanged; oracle: Ok or Err, never a panic (hook records the site), never an abort (child process), read calls <= 16*len+4096 (no loop without consuming input); non-trivial = corrupted input that still passes the header, payload table and Game Start (reaches the event loop); distinct by xxh3 of the input");
+	ctx.set_rule("structure-aware corruptions of generated valid replays of every regime (event insert/delete/duplicate/swap, wrong frame id, port byte 4..255 or unoccupied, follower flag on non-ICs, events illegal for the version with/without a table entry, payload-table size/zero/duplicate/drop/size-byte edits, declared raw length {0, 1, consumed+-k, actual+-k, 2^32-1, random}, splitter size/code/final/declared-size fields, metadata grammar violations, nesting depth 126..3000 in-process and up to 10^6 in a child process, no players), byte-level truncation/flips/splices/random bytes; each input read with all four {skip frames} x {hash} combinations and through the README incremental loop; fault injection: a hard I/O error at read call k (every k for small inputs) or at the seek must surface as Err, injected EINTR + short reads must give the same game or an error; oracle: Ok or Err, never a panic (hook records the site), never an abort (child process), read calls <= 16*len+4096 (no loop without consuming input); non-trivial = corrupted input that still passes the header, payload table and Game Start (reaches the event loop); distinct by xxh3 of the input");
 	ctx.assume("Err is always acceptable; allocation size is not judged; the `debug` option (writes files) is outside the quantifier");
 	let mut violations = 0;
 	if let Some((f, p)) = isolated_probes(ctx) {
